@@ -47,9 +47,9 @@ fn build(req: &Value) -> AnalysisHost {
 }
 
 fn rename(req: &Value) -> Value {
-    let host = build(req);
+    let (host, file) = host_for(req);
     let a = host.snapshot();
-    let fpos = FilePos::new(FileId(req["file"].as_u64().unwrap() as u32), (req["offset"].as_u64().unwrap() as u32).into());
+    let fpos = FilePos::new(file, (req["offset"].as_u64().unwrap() as u32).into());
     let prep = match a.prepare_rename(fpos) {
         Ok(Ok((r, n))) => json!({"ok": true, "range": [u32::from(r.start()), u32::from(r.end())], "name": n.as_str()}),
         Ok(Err(e)) => json!({"ok": false, "err": e}),
